@@ -678,6 +678,10 @@ class AsyncServer(base_server.BaseServer):
         namespace = namespace or '/'
         sid = self.manager.sid_from_eio_sid(eio_sid, namespace)
         self.logger.info('received ack from %s [%s]', sid, namespace)
+        if not self.manager.is_connected(sid, namespace):
+            # (like its events, the acknowledgements of a client that is
+            # being disconnected are not dispatched any more)
+            return
         await self.manager.trigger_callback(sid, id, data)
 
     async def _trigger_event(self, event, namespace, *args):
